@@ -173,11 +173,14 @@ def run(seed=0, tier='quick', hints=None, broken=False):
         for name in classes:
             orders = range(6) if has_interp(name) else [None]
             for order in orders:
-                case = make_case(rng, name, order)
-                ok = check(case, viol)
-                evals += 1
-                ran += bool(ok)
-                seen.add((name, order, case['dtype']))
+                # classes with a border mode: every image order once with the CONSTANT border (where the fill values
+                # show) and once with a border mode drawn at random
+                for force in ([{MODE_ARG[name]: 'constant'}, None] if name in MODE_ARG else [None]):
+                    case = make_case(rng, name, order, force=force)
+                    ok = check(case, viol)
+                    evals += 1
+                    ran += bool(ok)
+                    seen.add((name, order, case['dtype'], bool(force)))
     # every documented alternative of every class once (with a random image order)
     for name in classes:
         for arg, vals in CTOR[name]['alts'].items():
